@@ -214,6 +214,7 @@ func Decrypt(in io.Reader, opts DecryptOptions) (io.Reader, error) {
 	// Unwrap the file key
 	// Note: we're skipping the nonce and tag parameters at the moment because none of the supported ciphers use them
 	fileKeyBytes, _ := opts.UnwrapKeyFn(manifestObj.WFK, string(manifestObj.KeyWrappingAlgorithm), keyName, nil, nil)
+	unwrapFailed := len(fileKeyBytes) != 32
 	if len(fileKeyBytes) != 32 {
 		// This is where things get a bit tricky.
 		// If the UnwrapKeyFn returned an error, we want to ignore that for now, and instead continue validating the MAC using an empty fileKey (which will fail).
@@ -233,6 +234,12 @@ func Decrypt(in io.Reader, opts DecryptOptions) (io.Reader, error) {
 	err = fk.VerifyHeaderSignature(manifest, mac)
 	if err != nil {
 		return nil, err
+	}
+	if unwrapFailed {
+		// The all-zero placeholder key is public knowledge: a header that verifies under it proves nothing
+		// (anyone can build a complete document with that key).
+		// The MAC was still computed above, so the time taken does not depend on whether the key could be unwrapped.
+		return nil, ErrDecryptionSignature
 	}
 
 	// Start a background goroutine to perform the encryption, and return the stream to the caller
